@@ -438,3 +438,56 @@ Proof.
   - intros s Ws. apply F; auto.
   - intros r Hr. destruct (G r Hr) as [K|[]]. exact K.
 Qed.
+
+(* ---- non-vacuity and necessity ---- *)
+
+(* the shape of a constructor with a loop: clone the key parameter, fix it up in a loop that may
+   `continue`, keep it: disciplined, and it really runs (one iteration, then the escape) *)
+Example disciplined_body_example :
+  let h0 := [[1; 2; 3]%N; [9; 9]%N] in
+  let regs := [mkSlice 0 0 3 3; mkSlice 1 0 2 2; mkSlice 0 0 0 0] in
+  let prog := seq [SClone 2 0; SLoop (seq [SSet 2; SIf SJump SSkip]); SEscape 2; SReturn] in
+  body_disciplined [false; false; false] prog = true /\
+  exists h' regs' r, exec (h0, regs, []) prog OReturn (h', regs', [r]) /\ arr r = 2 /\
+    firstn 2 h' = h0 /\ read h' r = [7; 2; 3]%N.
+Proof.
+  split; [vm_compute; reflexivity|].
+  eexists. eexists. eexists. split.
+  - cbn [seq].
+    eapply E_seq. { apply E_atom. eapply A_clone with (nc := 0). reflexivity. }
+    eapply E_seq.
+    { eapply E_loop_iter with (o := OJump); [discriminate| |apply E_loop_exit].
+      eapply E_seq.
+      - apply E_atom. eapply A_set with (i := 0) (x := 7%N); [reflexivity|vm_compute; reflexivity].
+      - apply E_if_l. apply E_jump. }
+    eapply E_seq. { apply E_atom. eapply A_escape. vm_compute. reflexivity. }
+    apply E_return.
+  - vm_compute. auto.
+Qed.
+
+(* the analysis is necessary: a body that lets a callee write into a parameter, appends to it, or
+   keeps it, has an execution in which the caller sees the change / the kept slice is the caller's *)
+Theorem undisciplined_bodies_refuted :
+  (body_disciplined [false] (SWrite 0) = false /\
+   exists h0 param caller h' regs' lg',
+     exec (h0, [param], []) (SWrite 0) ONormal (h', regs', lg') /\ wf_slice h0 caller /\
+     read_cap h' caller <> read_cap h0 caller) /\
+  (body_disciplined [false; false] (SAppend 1 0) = false /\
+   exists h0 param caller h' regs' lg',
+     exec (h0, [param; param], []) (SAppend 1 0) ONormal (h', regs', lg') /\ wf_slice h0 caller /\
+     read h' caller <> read h0 caller) /\
+  (body_disciplined [false] (SEscape 0) = false /\
+   exists h0 param h' regs' r,
+     exec (h0, [param], []) (SEscape 0) ONormal (h', regs', [r]) /\ wf_slice h0 param /\ arr r = arr param).
+Proof.
+  repeat split.
+  - exists [[1; 2; 3; 170]%N], (mkSlice 0 0 3 4), (mkSlice 0 0 3 4). eexists. eexists. eexists. split.
+    + apply E_atom. eapply A_write with (p := 3) (bs := [7%N]); [reflexivity|simpl; lia].
+    + split; [unfold wf_slice; simpl; lia|vm_compute; discriminate].
+  - exists [[1; 2; 3; 170]%N], (mkSlice 0 0 3 4), (mkSlice 0 0 4 4). eexists. eexists. eexists. split.
+    + apply E_atom. eapply A_append with (xs := [7%N]) (nc := 0). reflexivity.
+    + split; [unfold wf_slice; simpl; lia|vm_compute; discriminate].
+  - exists [[1; 2; 3]%N], (mkSlice 0 0 3 3). eexists. eexists. eexists. split.
+    + apply E_atom. eapply A_escape. reflexivity.
+    + split; [unfold wf_slice; simpl; lia|reflexivity].
+Qed.
